@@ -17,7 +17,7 @@ struct Journal {
 }
 impl Journal {
     fn new(shard: u64) -> Self {
-        let dir = std::path::Path::new(VERIF_DIR).join("build/c07-journal");
+        let dir = crate::run::verif_dir().join("build/c07-journal");
         let _ = std::fs::create_dir_all(&dir);
         let tag = std::env::var("VERIF_C07_PROFILE").unwrap_or_else(|_| "checked".into());
         Journal { f: std::fs::File::create(dir.join(format!("{tag}-{shard}.txt"))).ok() }
@@ -137,7 +137,7 @@ fn exercise_model_zone(z: &crate::model::MZone) -> Result<(), String> {
 }
 
 fn corpus_files(target: &str) -> Vec<std::path::PathBuf> {
-    let mut v: Vec<_> = std::fs::read_dir(std::path::Path::new(VERIF_DIR).join("corpus").join(target)).map(|rd| rd.flatten().map(|e| e.path()).filter(|p| p.is_file()).collect()).unwrap_or_default();
+    let mut v: Vec<_> = std::fs::read_dir(crate::run::verif_dir().join("corpus").join(target)).map(|rd| rd.flatten().map(|e| e.path()).filter(|p| p.is_file()).collect()).unwrap_or_default();
     v.sort();
     v
 }
@@ -291,7 +291,7 @@ pub fn run(ctx: &Ctx) -> Outcome {
     });
     out.absorb_all(rs);
     // merge libFuzzer statistics written by checks/C07.sh
-    if let Ok(text) = std::fs::read_to_string(std::path::Path::new(VERIF_DIR).join("build/c07-fuzzstats.json")) {
+    if let Ok(text) = std::fs::read_to_string(crate::run::verif_dir().join("build/c07-fuzzstats.json")) {
         if let Ok(v) = serde_json::from_str::<Value>(&text) {
             let execs: u64 = v["targets"].as_array().map(|a| a.iter().map(|t| t["execs"].as_u64().unwrap_or(0)).sum()).unwrap_or(0);
             out.stats.evaluations += execs;
